@@ -24,6 +24,7 @@
 import MofunModel.Proofs.FindCompleteMain
 import MofunModel.Proofs.FindCompleteTri
 import MofunModel.Proofs.OccRigid
+import MofunModel.Proofs.OccFind
 
 namespace Mofun
 
@@ -96,15 +97,6 @@ theorem near_window_complete_tri (inp : FindInput) (hG : triGuards inp = true) (
     nearTri inp.cell (patMax inp) inp.atol (imagePos inp g n) = true ∧
     inCube x (imagePos inp g n) (patMax inp) inp.atol = true :=
   window_complete_tri inp (triGuards_spec inp hG) x ((triGuards_spec inp hG).inside x hx) g hg n p hp hpm h
-
-/-- the guards of the completeness theorems: one of the two branches -/
-def searchGuards (inp : FindInput) : Bool := orthoGuards inp || triGuards inp
-
-theorem windowComplete_of_guards (inp : FindInput) (hG : searchGuards inp = true) : WindowComplete inp := by
-  unfold searchGuards at hG
-  rcases Bool.or_eq_true_iff.mp hG with h | h
-  · exact windowComplete_ortho inp (orthoGuards_spec inp h)
-  · exact windowComplete_tri inp (triGuards_spec inp h)
 
 /-- the square-root-free comparison is what it claims to be: if `iscloseSqrt p d atol` holds with `p ≤ m`, every
     component `Δ` of a vector of squared length `d` satisfies `Δ ≤ √m + 2·atol` (as `leSqrt (Δ − 2·atol) m`) -/
@@ -181,6 +173,16 @@ theorem find_count_eq_partial (inp : FindInput) (ax1 : Nat) (oracle : Nat → Na
       (fun a => ⟨hsound a, hcomplete a⟩)
   have := hperm.length_eq
   simpa using this
+
+/-- **find_count_eq_good_groups** (unconditional form of the count statement): the number of reported matches
+    equals the number of candidate groups with at least one tuple passing `goodCheck` — for every oracle and every
+    chooser, no hypothesis.  (Together with `find_keys_nodup` and `occurrence_in_candidate_group`: the count can only
+    deviate from the number of occurrences through the rotation re-check.) -/
+theorem find_count_eq_good_groups (inp : FindInput) (ax1 : Nat) (oracle : Nat → Nat → Quat)
+    (choose : Nat → List Nat → Nat) :
+    (find inp ax1 oracle choose).length
+      = ((findGroups inp ax1 oracle).2.filter (fun g => !g.good.isEmpty)).length :=
+  find_length_eq_good_groups inp ax1 oracle choose
 
 /-! ## non-vacuity: a concrete structure satisfying all guards, with a copy that straddles a cell face -/
 
